@@ -212,7 +212,7 @@ Lemma wrap32_small v : 0 <= v < 2147483648 -> wrap32 v = v.
 Proof. intros. apply wrap32_id. unfold in_i32, two31. lia. Qed.
 
 Section Acts.
-Variables (m : mode) (rv : Z -> Z -> Z) (l : log) (idx tid off : Z).
+Variables (m : mode) (rv : Z -> Z -> list Z -> Z) (l : log) (idx tid off : Z).
 Hypothesis Hl : legal l.
 Hypothesis Hi : 0 <= idx < 3.
 Hypothesis Ht : in_i32 tid = true.
